@@ -358,7 +358,7 @@ class Interp:
             base = self.ev(e.func.value, env)
             m = e.func.attr
             if isinstance(base, list) and m in ("append", "extend", "insert", "pop", "remove", "index", "count", "sort", "copy"):
-                return getattr(base, m)(*args)
+                return getattr(base, m)(*args, **kw)
             if isinstance(base, dict) and m in ("items", "values", "keys", "get", "pop", "setdefault", "update", "copy"):
                 r = getattr(base, m)(*args)
                 return list(r) if m in ("items", "values", "keys") else r
